@@ -560,13 +560,15 @@ func (ex *Exec) mapUpdate(m *MapV, k, v Value) {
 	if m == nil {
 		ex.gopanic("assignment to entry in nil map")
 	}
-	if m.RO != "" {
-		ex.roStore(m.RO)
-	}
 	if types.IsInterface(m.KT) {
 		ex.hashable(k)
 	}
 	e := ex.mapFind(m, k)
+	if m.RO != "" {
+		if e == nil || ex.roMatters(m.RO, e.C.V, v) {
+			ex.roStore(m.RO)
+		}
+	}
 	if e != nil {
 		e.C.V = ex.copyVal(v)
 		return
